@@ -21,7 +21,23 @@ use datafusion_cli::verif_hooks::split_from_semicolon;
 use datafusion_common::config::FormatOptions;
 use datafusion_sql::parser::DFParser;
 use datafusion_sql::sqlparser::dialect::GenericDialect;
-use h_util::{arg, json_str, Rng};
+use h_util::{arg, Rng};
+
+/// JSON string with everything outside printable ASCII written as \uXXXX (UTF-16 units), so that no
+/// output line contains a character that Python's splitlines() treats as a line end (U+0085, U+2028 ...)
+fn json_str(s: &str) -> String {
+    let mut o = String::from("\"");
+    for c in s.chars() {
+        match c {
+            '"' => o.push_str("\\\""),
+            '\\' => o.push_str("\\\\"),
+            ' '..='~' => o.push(c),
+            _ => { let mut b = [0u16; 2]; for u in c.encode_utf16(&mut b) { o.push_str(&format!("\\u{:04x}", u)); } }
+        }
+    }
+    o.push('"');
+    o
+}
 
 // ------------------------------------------------------------------------------------------- split
 #[derive(Clone, Copy, PartialEq)]
